@@ -250,8 +250,18 @@ class DictInterp:
             raise Raised("StopIteration")
         if fn in ("min", "max") and len(args) == 1 and isinstance(args[0], list) and args[0] and all(isinstance(x, str) for x in args[0]):
             return min(args[0]) if fn == "min" else max(args[0])
-        if fn in ("list", "tuple", "sorted") and len(args) == 1:
-            return list(args[0]) if not isinstance(args[0], ADict) else list(args[0].data)
+        if fn in ("list", "tuple", "sorted", "reversed") and len(args) == 1:
+            seq = list(args[0]) if not isinstance(args[0], ADict) else list(args[0].data)
+            if fn == "sorted":
+                if c.keywords:
+                    raise Unsupported("sorted with a key")
+                try:
+                    return sorted(seq, key=lambda x: x[0] if isinstance(x, tuple) and x and isinstance(x[0], str) else x)
+                except TypeError:
+                    raise Unsupported("sorted of incomparable abstract values")
+            if fn == "reversed":
+                return list(reversed(seq))
+            return tuple(seq) if fn == "tuple" else seq
         if isinstance(c.func, ast.Attribute):
             recv = self.ev(c.func.value)
             m = c.func.attr
